@@ -378,6 +378,7 @@ def run_case(case, rec, mon=None):
             st = styles[int(rng.integers(len(styles)))] if k else ("t2" if big else "vec")
             hist.append((st, _feed(inst, data, rng, st)))
             insts.append(inst)
+        differs = None
         # a reloaded instance (npy) gets the saver's shadow
         if rng.random() < 0.3:
             d = tempfile.mkdtemp(prefix="c16_")
@@ -388,6 +389,16 @@ def run_case(case, rec, mon=None):
                 mon.adopt(loaded, insts[0])
                 insts.append(loaded)
                 rec.count("reloaded_instances")
+                if rng.random() < 0.6:
+                    # a second object loaded from the same file; then more data for the first one only
+                    loaded2 = P.Standardize(path, norm_var=norm_var)
+                    mon.adopt(loaded2, insts[0])
+                    insts.append(loaded2)
+                    more = np.array(data[rng.permutation(N)[: max(1, N // 2)]], dtype=np.float64) * 1.5 + 1.0
+                    more.setflags(write=False)
+                    loaded.accumulate(more)
+                    differs = loaded  # no longer holds the common data set: judged by its own shadow only
+                    rec.count("two_objects_loaded_from_one_file_then_one_accumulates")
             finally:
                 for f in os.listdir(d):
                     os.unlink(os.path.join(d, f))
@@ -427,7 +438,7 @@ def run_case(case, rec, mon=None):
                     outs.append(inst.apply(xx, axis, in_place) if rng.random() < 0.5 else inst.apply(xx, axis=axis, in_place=in_place))
                 except Exception:
                     outs.append(None)
-            good = [o for o in outs if o is not None]
+            good = [o for o, inst in zip(outs, insts) if o is not None and inst is not differs]
             rec.count("additivity_groups")
             for o in good[1:]:
                 S = float(np.max(np.abs(good[0]))) if good[0].size else 1.0
